@@ -205,6 +205,7 @@ class SimTransport(Transport):
         self.fail_send_at = fail_send_at
         self.send_calls = 0
         self.sent_after_close = 0
+        self.auto_ack = False   # behave like a live server: answer every respond-flagged KEEPALIVE
 
     async def connect(self):
         self.connect_calls += 1
@@ -236,6 +237,10 @@ class SimTransport(Transport):
                     dq.pop(0)
             else:
                 self.trace.append(['out', [_dec]])
+        if self.auto_ack and isinstance(_dec, KeepAliveFrame) and _dec.flags_respond and not self.closed:
+            ack = KeepAliveFrame()
+            ack.flags_respond = False
+            self.q.put_nowait(ack)
         if self.block_sends:
             self.gate = self.loop.create_future()
             await self.gate
